@@ -22,6 +22,7 @@ class Prop(object):
     RULE = ('(a) all 2^11 values of the issue bit-set and all (value, extra bit) pairs; (b) every SignatureVerification holding 1, 2 or 3 entries '
             'from a 16-value slice; (c) product key (strong/weak) x hash x expired x revoked x subject kind x correct/incorrect x 1..3 signatures. '
             'One state = one lattice value / one result object / one configuration.')
+    CASE_TIMEOUT = 1500
     ASSUMPTIONS = ['the disqualifying conditions are the ones the property names (wrong signature, expired, disabled, invalid, no self-signature); '
                    'other bits are advisory', 'real time: fixture keys were created in 2017 and expire after one day, so they are expired whenever the check runs']
 
